@@ -64,8 +64,12 @@ AsObserved(c, r) ==
 VARIABLES case, pc, st, res
 vars == <<case, pc, st, res>>
 
-Init == /\ \E g \in DOMAIN Cases : case \in Cases[g]
-        /\ pc = "run" /\ st = KInit(case) /\ res = <<>>
+\* (TLC computes initial states with one thread: Init only names the group, Pick draws the case)
+Init == /\ \E g \in DOMAIN Cases : case = [k |-> "pick", g |-> g]
+        /\ pc = "pick" /\ st = <<>> /\ res = <<>>
+Pick == /\ pc = "pick"
+        /\ case' \in Cases[case.g]
+        /\ pc' = "run" /\ st' = KInit(case') /\ UNCHANGED res
 
 StepOf(kind) == /\ pc = "run" /\ case.k = kind /\ ~KDone(case, st)
                 /\ st' = KStep(case, st) /\ UNCHANGED <<case, pc, res>>
@@ -84,7 +88,7 @@ CallAct == /\ pc = "run" /\ case.k \in SingleShot /\ ~KDone(case, st)
            /\ st' = KStep(case, st) /\ UNCHANGED <<case, pc, res>>
 Finish  == /\ pc = "run" /\ KDone(case, st)
            /\ res' = AsObserved(case, KRes(case, st)) /\ pc' = "done" /\ UNCHANGED <<case, st>>
-Next == RintAct \/ AeqAct \/ M2sAct \/ OctAct \/ FracAct \/ AutoAct \/ PolyAct \/ ZfAct \/ TblAct \/ DocAct
+Next == Pick \/ RintAct \/ AeqAct \/ M2sAct \/ OctAct \/ FracAct \/ AutoAct \/ PolyAct \/ ZfAct \/ TblAct \/ DocAct
         \/ FdAct \/ CallAct \/ Finish
 Spec == Init /\ [][Next]_vars
 
